@@ -277,7 +277,7 @@ func seqRun(w *mon.W, ops []fsx.Op, opt seqOpts) seqResult {
 }
 
 func runC08(w *mon.W) {
-	total := w.Scale(2400, 250000)
+	total := w.Scale(2400, 1200000)
 	for i := 0; i < total; i++ {
 		if !w.Mine(i) {
 			continue
